@@ -202,7 +202,7 @@ class YAMLFormatter(GraphtageFormatter):
 
         """
         # Treat the container like a list
-        list_node = ListNode(node.children())
+        list_node = ListNode((c.copy() for c in node.children()))
         self.print(printer, list_node)
 
 
